@@ -57,6 +57,10 @@ known("KF37-quoted-number-atom-unifies-with-number", ["C14"],
       "=/2 (unify_value) decides by Term.signature, which strips the quotes of a quoted atom: the atom '1' and the integer 1 (and '1.0' and 1.0) have the same signature and unify, although no mgu exists; atom('1') still holds for the result and clause-head unification (clause index) keeps them apart",
       "q :- '1' = 1. query(q).   (answers 1.0; atom('1') and integer(1) are both true, '1' == 1 fails)",
       match={"clause": "eq-succeeds-on-non-unifiable", "numeric_atom": True})
+known("KF41-clause-index-distinguishes-quoted-atoms", ["C14"],
+      "a call whose argument contains the atom a does not match a clause head that writes the same atom with quotes ('a') when the argument is ground: the clause index (ClauseIndex.find) looks arguments up by their stored text, where the quotes are kept, so the clause is filtered out before unification; =/2 and non-ground arguments treat the two spellings as the same atom (Term.signature strips the quotes)",
+      "p('a'). q :- p(a). query(q).   (answers 0.0; p(f('a')) vs p(f(a)) likewise; q :- a = 'a'. answers 1.0)",
+      match={"clause": "head-fails-on-unifiable", "quoted_atom": True})
 known("KF10-equal-terms-with-different-hashes", ["C18"],
       "objects that compare equal have different hashes: Constant.__eq__ (and Var.__eq__) compare the printed text while __hash__ hashes the value / name, so Constant(1) == Constant('1') == Term('1') and Var('X') == Term('X') with different hashes; Not('\\+',a) == Not('not',a) with different hashes",
       "hash(Constant(1)) != hash(Constant('1')) although Constant(1) == Constant('1'); hash(Not('\\+',a)) != hash(Not('not',a))",
